@@ -141,6 +141,20 @@ Section Step.
       rewrite upd_other; auto.
   Qed.
 
+  Lemma recl_keep2 s1 m' g' : cell m' c_recl = cell (gm x) c_recl -> (t <> tgt -> fstate m' tgt = fstate (gm x) tgt) ->
+    (gfin (gh x) <> None -> gfin g' <> None) -> (released (gh x) = true -> released g' = true) ->
+    let x' := {| base := {| mem := m'; stk := upd (stk (base x)) t s1; nthr := nthr (base x); grd := grd (base x) |};
+                 gh := g' |} in
+    reclaims (base x') = 0 \/
+    (reclaims (base x') = 1 /\ stk (base x') tgt = [] /\ fstate (gm x') tgt = ST_DONE /\ tfin x').
+  Proof.
+    intros C F A B x'. destruct (g_recl _ HG) as [R|[R [E [D [T1 T2]]]]].
+    - left. unfold reclaims, x'. cbn. rewrite C. exact R.
+    - assert (Nt : t <> tgt) by (intros Et; apply st_nonempty; rewrite Et; exact E).
+      right. unfold reclaims, tfin, gm, x' in *. cbn. rewrite C, (F Nt). repeat split; auto.
+      rewrite upd_other; auto.
+  Qed.
+
   Lemma recl_zero_tgt : t = tgt -> reclaims (base x) = 0.
   Proof.
     intros Et. destruct (g_recl _ HG) as [R|[_ [E _]]]; auto. exfalso. apply st_nonempty. now rewrite Et.
@@ -155,6 +169,11 @@ Section Step.
   Proof.
     intros A B. pose proof (g_mb _ HG) as GM. unfold ds_of, ji_of in GM.
     destruct (mb (gh x)); destruct GM as [G1 G2]; split; auto; contradiction.
+  Qed.
+
+  Lemma mb_nn : cell (mem (base x)) c_ds <> D_NONE -> mb (gh x) <> MBNone.
+  Proof.
+    intros A E. pose proof (g_mb _ HG) as GM. rewrite E in GM. destruct GM as [G1 _]. contradiction.
   Qed.
 
   Lemma case_y1 p k : stk (base x) t = [YRead; FC (JYielded p k)] -> idle x t -> step_goal x t.
@@ -578,6 +597,24 @@ Section Step.
     intros E W. destruct (Nat.eq_dec u j) as [->|N]; [right; auto | left; now apply upd_other].
   Qed.
 
+  Lemma recl_sched j s1 m' g' : mb (gh x) = MBTaken j t -> woken (gh x) = false -> t <> tgt ->
+    cell m' c_recl = cell (mem (base x)) c_recl ->
+    fstate m' = upd (fstate (mem (base x))) j ST_READY ->
+    gfin g' = gfin (gh x) -> released g' = released (gh x) ->
+    let x' := {| base := {| mem := m'; stk := upd (stk (base x)) t s1; nthr := nthr (base x); grd := grd (base x) |};
+                 gh := g' |} in
+    cell (mem (base x')) c_recl = 0 \/
+    (cell (mem (base x')) c_recl = 1 /\ upd (stk (base x)) t s1 tgt = [] /\
+     upd (fstate (mem (base x))) j ST_READY tgt = ST_DONE /\ tfin x').
+  Proof.
+    intros E W Nt C F A B x'. destruct (g_asleep _ HG _ _ E W) as [X HX].
+    destruct (g_recl _ HG) as [R|[R [E0 [D [T1 T2]]]]].
+    - left. cbn. rewrite C. exact R.
+    - right. cbn. rewrite C. unfold tfin, x'. cbn. rewrite A, B. repeat split; auto.
+      + rewrite upd_other; auto.
+      + rewrite upd_other; auto. intros Q. rewrite <- Q in HX. congruence.
+  Qed.
+
   Lemma case_tready j : stk (base x) t = [FStWrite j ST_READY; FC (TReady j)] -> t = tgt -> run x t ->
     mb (gh x) = MBTaken j tgt -> woken (gh x) = false -> gave (gh x) = true -> j <> tgt -> tfin x ->
     step_goal x t.
@@ -769,10 +806,318 @@ Section Step.
       + apply sched_rwk; auto; intros; contradiction.
       + apply sched_rfst; auto.
       + right. eauto.
-    - constructor; try gf HG; try (apply recl_keep; reflexivity); cbn; auto; try discriminate;
+    - constructor; try gf HG; try (apply recl_keep; reflexivity);
+        try (eapply recl_sched; eauto; reflexivity); cbn; auto; try discriminate;
         try (intros; discriminate).
-      all: idtac.
-      Show.
-  Abort.
-(*CASES*)
+      + apply full_keep.
+      + intros _. eauto.
+      + pose proof (g_len _ HG) as Ln. rewrite NB in Ln. rewrite Ln. lia.
+      + split; auto. intros _. exists j, t. auto.
+      + intros e0 [<-|I]; [intros _; exact Fr | now apply (g_succ _ HG)].
+  Qed.
+
+  Lemma case_dready p k j : stk (base x) t = [FStWrite j ST_READY; FC (DReady p k j)] -> t <> tgt -> run x t ->
+    mb (gh x) = MBTaken j t -> woken (gh x) = false -> step_goal x t.
+  Proof.
+    intros Hs Nt R E W. pose proof (sleeper_blocked _ _ E W) as Bj. unfold gm in Bj.
+    destruct (g_taken _ HG _ _ E) as [Njt _].
+    destruct R as [R1 [R2 R3]]. unfold gm in *.
+    compute_step Hs. unfold wake. cbn -[Z.add Z.mul]. rewrite Bj. cbn -[Z.add Z.mul].
+    split_fin. cbn -[Z.add Z.mul]. rewrite ?app_nil_r. rewrite ?orb_false_r.
+    split; [|split].
+    - rewrite upd_same. apply start_shape. apply idle_client; auto.
+      unfold run, gm. cbn. rewrite !upd_other by congruence. auto.
+    - constructor; cbn; intros; auto using upd_other;
+        try (left; reflexivity); try (left; split; [reflexivity | intros; reflexivity]).
+      + apply sched_rwk; auto; intros; contradiction.
+      + apply sched_rfst; auto.
+    - constructor; try gf HG; try (apply recl_keep; reflexivity);
+        try (eapply recl_sched; eauto; reflexivity); cbn; auto; try discriminate;
+        try (intros; discriminate).
+      + apply full_keep.
+      + intros _. eauto.
+      + intros _. right. eauto.
+      + intros u _. apply orb_true_r.
+  Qed.
+
+  Ltac xchg_G := constructor; try gf HG; try (apply recl_keep; reflexivity);
+          try (apply recl_keep2; [reflexivity | reflexivity | cbn; auto |
+                                  cbn; intros Hrel; rewrite ?Hrel, ?orb_true_r; reflexivity]);
+          cbn; auto; try discriminate; try (intros; discriminate).
+  Ltac xchg_rely := constructor; cbn; intros; auto using upd_other;
+          try (left; reflexivity); try (left; split; [reflexivity | intros; reflexivity]);
+          try (match goal with H : ?b = true |- _ => rewrite H; reflexivity end).
+
+  Lemma case_jxchg p k : stk (base x) t = [CXchgC c_ds D_WTJ 5; FC (JXchg p k)] -> t <> tgt -> run x t ->
+    step_goal x t.
+  Proof.
+    intros Hs Nt R. pose proof (g_mb _ HG) as GM.
+    destruct (g_ds _ HG) as [D|[D|[D|D]]].
+    - (* NONE: register in the slot and sleep *)
+      assert (E : mb (gh x) = MBNone).
+      { destruct (mb (gh x)); auto; destruct GM as [GM _]; contradiction. }
+      assert (NTk : forall s' u', mb (gh x) <> MBTaken s' u') by (intros s' u'; rewrite E; discriminate).
+      destruct (pre_take NTk) as [W [Gv [NA [NB Q]]]].
+      destruct Q as [GD LT]; [rewrite E; discriminate|].
+      compute_step Hs. unfold ds_of in *. rewrite D, E. cbn -[Z.add Z.mul]. rewrite ?orb_false_r, ?andb_false_r, ?orb_false_r.
+      split; [|split].
+      + rewrite upd_same. apply sh_sw; auto. right. repeat split; eauto.
+      + xchg_rely.
+      + xchg_G.
+        * split; [discriminate|]. rewrite E in GM. unfold ji_of in GM. tauto.
+        * intros _. apply orb_true_r.
+        * rewrite W. discriminate.
+        * rewrite Gv. discriminate.
+        * rewrite GD. discriminate.
+        * rewrite NA. split; [lia | intros; lia].
+        * rewrite NB. split; [lia | intros; lia].
+    - (* WAIT_FOR_JOINER: the target is (or will be) in the slot *)
+      assert (Fn : gfin (gh x) <> None) by (apply (g_wfj _ HG); exact D).
+      compute_step Hs. unfold ds_of in *. rewrite D. cbn -[Z.add Z.mul]. rewrite ?orb_false_r, ?andb_false_r, ?orb_false_r.
+      split; [|split].
+      + rewrite upd_same. apply sh_jreadres; auto; cbn.
+        * apply orb_true_r.
+        * intros Q. rewrite Q. apply orb_true_r.
+      + xchg_rely.
+      + xchg_G.
+        * apply gmb_newds; [rewrite D|]; discriminate.
+        * intros _. apply orb_true_r.
+        * intros _. apply mb_nn. rewrite D. discriminate.
+        * apply asleep_keep.
+        * apply full_keep.
+        * intros Q. rewrite (g_stj _ HG Q). reflexivity.
+    - (* WAIT_TO_JOIN: somebody else is joining *)
+      compute_step Hs. unfold ds_of in *. rewrite D. cbn -[Z.add Z.mul]. rewrite ?orb_false_r, ?andb_false_r, ?orb_false_r.
+      split_fin. cbn -[Z.add Z.mul]. rewrite ?app_nil_r.
+      split; [|split].
+      + rewrite upd_same. apply start_shape. now apply idle_client.
+      + xchg_rely.
+      + xchg_G.
+        * apply gmb_newds; [rewrite D|]; discriminate.
+        * intros _. apply (g_rel _ HG). auto.
+        * apply asleep_keep.
+        * apply full_keep.
+    - (* DETACHED (after our load): error - but detach_state is now WAIT_TO_JOIN *)
+      assert (Rl : released (gh x) = true) by (apply (g_rel _ HG); auto).
+      compute_step Hs. unfold ds_of in *. rewrite D. cbn -[Z.add Z.mul]. rewrite ?orb_false_r, ?andb_false_r, ?orb_false_r.
+      split_fin. cbn -[Z.add Z.mul]. rewrite ?app_nil_r.
+      split; [|split].
+      + rewrite upd_same. apply start_shape. now apply idle_client.
+      + xchg_rely.
+      + xchg_G.
+        * apply gmb_newds; [rewrite D|]; discriminate.
+        * apply asleep_keep.
+        * apply full_keep.
+  Qed.
+
+  Lemma case_trx p k : stk (base x) t = [CXchgC c_ds D_WTJ 5; FC (TrX p k)] -> t <> tgt -> run x t ->
+    ds_of (base x) <> D_NONE -> step_goal x t.
+  Proof.
+    intros Hs Nt R Dz. unfold ds_of in Dz. pose proof (mb_nn Dz) as Mn.
+    destruct (Z.eqb_spec (cell (mem (base x)) c_ds) D_WFJ) as [D|ND].
+    - assert (Fn : gfin (gh x) <> None) by (apply (g_wfj _ HG); exact D).
+      compute_step Hs. unfold ds_of in *. rewrite D. cbn -[Z.add Z.mul]. rewrite ?orb_false_r, ?andb_false_r, ?orb_false_r.
+      split; [|split].
+      + rewrite upd_same. apply sh_jreadres; auto; cbn.
+        * apply orb_true_r.
+        * intros Q. rewrite Q. apply orb_true_r.
+      + xchg_rely.
+      + xchg_G.
+        * apply gmb_newds; [rewrite D|]; discriminate.
+        * intros _. apply orb_true_r.
+        * apply asleep_keep.
+        * apply full_keep.
+        * intros Q. rewrite (g_stj _ HG Q). reflexivity.
+    - assert (Rl : released (gh x) = true).
+      { apply (g_rel _ HG). unfold ds_of. destruct (g_ds _ HG) as [D|[D|[D|D]]]; unfold ds_of in D; auto; contradiction. }
+      compute_step Hs. unfold ds_of in *.
+      destruct (Z.eqb_spec (cell (mem (base x)) c_ds) D_NONE) as [D0|_]; [contradiction|].
+      destruct (Z.eqb_spec (cell (mem (base x)) c_ds) D_WFJ) as [D1|_]; [contradiction|].
+      cbn -[Z.add Z.mul]. rewrite ?orb_false_r, ?andb_false_r, ?orb_false_r.
+      split_fin. cbn -[Z.add Z.mul]. rewrite ?app_nil_r.
+      split; [|split].
+      + rewrite upd_same. apply start_shape. now apply idle_client.
+      + xchg_rely.
+      + xchg_G.
+        * apply gmb_newds; [exact Dz | discriminate].
+        * apply asleep_keep.
+        * apply full_keep.
+  Qed.
+
+  Lemma case_dx p k : stk (base x) t = [CXchgC c_ds D_DET 5; FC (DX p k)] -> t <> tgt -> run x t -> step_goal x t.
+  Proof.
+    intros Hs Nt R. pose proof (g_mb _ HG) as GM.
+    destruct (g_ds _ HG) as [D|[D|[D|D]]].
+    - (* NONE: detached before anybody waits *)
+      assert (E : mb (gh x) = MBNone).
+      { destruct (mb (gh x)); auto; destruct GM as [GM _]; contradiction. }
+      assert (NTk : forall s' u', mb (gh x) <> MBTaken s' u') by (intros s' u'; rewrite E; discriminate).
+      destruct (pre_take NTk) as [W [Gv [NA [NB Q]]]].
+      destruct Q as [GD LT]; [rewrite E; discriminate|].
+      compute_step Hs. unfold ds_of in *. rewrite D, E. cbn -[Z.add Z.mul]. rewrite ?orb_false_r, ?andb_false_r, ?orb_false_r.
+      split_fin. cbn -[Z.add Z.mul]. rewrite ?app_nil_r.
+      split; [|split].
+      + rewrite upd_same. apply start_shape. now apply idle_client.
+      + xchg_rely.
+      + xchg_G.
+        * split; [discriminate|]. rewrite E in GM. unfold ji_of in GM. tauto.
+        * intros _. apply orb_true_r.
+        * rewrite W. discriminate.
+        * rewrite Gv. discriminate.
+        * intros u _. apply orb_true_r.
+        * rewrite NA. split; [lia | intros; lia].
+        * rewrite NB. split; [lia | intros; lia].
+    - (* WAIT_FOR_JOINER: release the finished fiber *)
+      compute_step Hs. unfold ds_of in *. rewrite D. cbn -[Z.add Z.mul]. rewrite ?orb_false_r, ?andb_false_r, ?orb_false_r.
+      split; [|split].
+      + rewrite upd_same. apply sh_c0; auto. right; right. repeat split; eauto; cbn.
+        * apply orb_true_r.
+        * intros Q. rewrite Q. apply orb_true_r.
+      + xchg_rely.
+      + xchg_G.
+        * apply gmb_newds; [rewrite D|]; discriminate.
+        * intros _. apply orb_true_r.
+        * intros _. apply mb_nn. rewrite D. discriminate.
+        * apply asleep_keep.
+        * apply full_keep.
+        * intros Q. rewrite (g_std _ HG Q). reflexivity.
+    - (* WAIT_TO_JOIN: a joiner is (or was) involved *)
+      compute_step Hs. unfold ds_of in *. rewrite D. cbn -[Z.add Z.mul]. rewrite ?orb_false_r, ?andb_false_r, ?orb_false_r.
+      split; [|split].
+      + rewrite upd_same. apply sh_c0; auto. right; right. repeat split; eauto; cbn.
+        * apply orb_true_r.
+        * intros Q. rewrite Q. apply orb_true_r.
+      + xchg_rely.
+      + xchg_G.
+        * apply gmb_newds; [rewrite D|]; discriminate.
+        * intros _. apply orb_true_r.
+        * intros _. apply mb_nn. rewrite D. discriminate.
+        * apply asleep_keep.
+        * apply full_keep.
+        * intros Q. rewrite (g_std _ HG Q). reflexivity.
+    - (* already DETACHED *)
+      compute_step Hs. unfold ds_of in *. rewrite D. cbn -[Z.add Z.mul]. rewrite ?orb_false_r, ?andb_false_r, ?orb_false_r.
+      split_fin. cbn -[Z.add Z.mul]. rewrite ?app_nil_r.
+      split; [|split].
+      + rewrite upd_same. apply start_shape. now apply idle_client.
+      + xchg_rely.
+      + xchg_G.
+        * apply gmb_newds; [rewrite D|]; discriminate.
+        * intros _. apply orb_true_r.
+        * intros _. apply mb_nn. rewrite D. discriminate.
+        * apply asleep_keep.
+        * apply full_keep.
+        * intros Q. rewrite (g_std _ HG Q). reflexivity.
+  Qed.
+
+  Theorem step_ok : step_goal x t.
+  Proof.
+    pose proof (HS t) as H. remember (stk (base x) t) as stkt eqn:Hs. symmetry in Hs.
+    destruct H.
+    - eapply case_start; eauto.
+    - exfalso. now apply st_nonempty.
+    - eapply case_y1; eauto.
+    - eapply case_y2; eauto.
+    - eapply case_tstore; eauto.
+    - eapply case_tload; eauto.
+    - eapply case_txchg; eauto.
+    - eapply case_sw; eauto.
+    - eapply case_s1; eauto.
+    - eapply case_s2; eauto.
+    - eapply case_s3; eauto.
+    - eapply case_s4; eauto.
+    - eapply case_s5; eauto.
+    - eapply case_s6; eauto.
+    - eapply case_s7; eauto.
+    - eapply case_s8; eauto.
+    - eapply case_s9; eauto.
+    - eapply case_s10; eauto.
+    - eapply case_c0; eauto.
+    - eapply case_c1; eauto.
+    - eapply case_c2; eauto.
+    - eapply case_tread; eauto.
+    - eapply case_tgive; eauto.
+    - eapply case_tready; eauto.
+    - eapply case_tdonew; eauto.
+    - eapply case_ty1; eauto.
+    - eapply case_ty2; eauto.
+    - eapply case_ty3; eauto.
+    - eapply case_ty4; eauto.
+    - eapply case_ty5; eauto.
+    - eapply case_jload; eauto.
+    - eapply case_jxchg; eauto.
+    - eapply case_jmail; eauto.
+    - eapply case_jclear; eauto.
+    - eapply case_jreadres; eauto.
+    - eapply case_jready; eauto.
+    - eapply case_trl1; eauto.
+    - eapply case_trl2; eauto.
+    - eapply case_trx; eauto.
+    - eapply case_dx; eauto.
+    - eapply case_dready; eauto.
+  Qed.
 End Step.
+
+Theorem step_inv x t : Inv x -> status_of (base x) t = SReady -> Inv (istep x t).
+Proof.
+  intros [HG HS] St. destruct (step_ok x t HG HS St) as [A [B C]]. constructor; [exact C|].
+  intros u. destruct (Nat.eq_dec u t) as [->|N]; [exact A|].
+  rewrite (r_stk _ _ _ B u N). exact (stable x (istep x t) t u _ HG B N eq_refl (HS u)).
+Qed.
+
+Lemma init_inv g progs : Inv (iinit g progs).
+Proof.
+  split.
+  - constructor; cbn; auto; try discriminate; try (intros; discriminate); try lia.
+    all: try (split; [lia | intros; lia]).
+    all: try (intros; contradiction).
+    intros [Q|[Q|[Q|[s [u Q]]]]]; discriminate.
+  - intros t. cbn. constructor; cbn; auto. intros _. split; [reflexivity | discriminate].
+Qed.
+
+Theorem ireach_inv g progs x : ireach g progs x -> Inv x.
+Proof. induction 1; [apply init_inv | now apply step_inv]. Qed.
+
+
+(* ------------------------------------------------------------------ *)
+(* Property lemmas (used by Properties_C04.v).                         *)
+Lemma nostolen_of_flags x : G x -> dwr (gh x) = false -> jwr (gh x) = false -> nostolen x.
+Proof.
+  intros HG D J. split.
+  - destruct (stolen_d (gh x)) eqn:E; auto. rewrite (g_std _ HG E) in D. discriminate.
+  - destruct (stolen_j (gh x)) eqn:E; auto. rewrite (g_stj _ HG E) in J. discriminate.
+Qed.
+
+Lemma success_value_of_inv x : Inv x -> dwr (gh x) = false -> jwr (gh x) = false ->
+  forall t v f, In (t, v, f) (gsucc (gh x)) -> f = Some v.
+Proof.
+  intros [HG _] D J t v f I. exact (g_succ _ HG _ I (nostolen_of_flags x HG D J)).
+Qed.
+
+Lemma one_success_of_inv x : Inv x -> jwr (gh x) = false -> (length (gsucc (gh x)) <= 1)%nat.
+Proof.
+  intros [HG _] J. rewrite (g_len _ HG).
+  destruct (g_na _ HG) as [A1 A2]. destruct (g_nb _ HG) as [B1 B2].
+  destruct (Nat.eq_dec (na (gh x)) 1) as [EA|NA]; [|lia].
+  destruct (Nat.eq_dec (nb (gh x)) 1) as [EB|NB]; [|lia].
+  exfalso. destruct A2 as [s [u [Q N]]]; [lia|]. destruct B2 as [s' [u' [Q' S]]]; [lia|].
+  assert (s' = s) by congruence. subst s'. rewrite (g_stj _ HG (S N)) in J. discriminate.
+Qed.
+
+Lemma detached_fails_of_inv x : Inv x -> bad_late (gh x) = false.
+Proof. intros [HG _]. exact (g_badlate _ HG). Qed.
+
+Lemma reclaim_of_inv x : Inv x ->
+  reclaims (base x) = 0 \/
+  (reclaims (base x) = 1 /\ stk (base x) tgt = [] /\ fstate (mem (base x)) tgt = ST_DONE /\
+   gfin (gh x) <> None /\ released (gh x) = true).
+Proof. intros [HG _]. destruct (g_recl _ HG) as [R|[R [A [B [C D]]]]]; [left | right]; auto. Qed.
+
+(* a detach that returned SUCCESS leaves the slot dead: nothing is or will be published in it *)
+Lemma detached_slot_dead x : Inv x -> gdet (gh x) = true ->
+  ji_of (base x) = 0 /\ (mb (gh x) = MBNever \/ exists s u, mb (gh x) = MBTaken s u).
+Proof.
+  intros [HG _] D. pose proof (g_mb _ HG) as GM. destruct (g_det _ HG D) as [E|[s [u E]]]; rewrite E in GM.
+  - split; [tauto | now left].
+  - split; [tauto | right; eauto].
+Qed.
